@@ -30,8 +30,8 @@ def main():
     sys.path.insert(0, req["repo"])
     import pysnark.snarkjsbackend as be          # noqa: selects the recorder
     import pysnark.runtime as rt
-    be.prove = lambda: None
-    rt.autoprove = True
+    import atexit
+    atexit._clear()            # no proving step at interpreter exit of the replay process
     import z3
     from pyvc import sym, contract as ct
     import contracts  # noqa
@@ -339,7 +339,20 @@ def main():
             rec["message"] = str(e)[:200]
             rec["exc_obj"] = e
         state["active"] = False
-        rec["unsatisfied_constraints"] = all_constraints()
+        # files the real code wrote into the scratch cwd, as the contract's ghost disk
+        c.w.fs = {}
+        c.w.io_events = []
+        for fn_ in os.listdir("."):
+            if os.path.isfile(fn_) and fn_ not in ("req.json", "out.json"):
+                c.w.fs[fn_] = [open(fn_, "rb").read()]
+                c.w.io_events.append(("close", fn_))
+        rec["files"] = {k: len(v[0]) for k, v in c.w.fs.items()}
+        try:
+            rec["unsatisfied_constraints"] = all_constraints()
+        except Exception as e_:  # noqa  (layer-specific traces may not be evaluable)
+            rec["unsatisfied_constraints"] = []
+            rec["constraint_eval_error"] = str(e_)[:100]
+        return_early = None
         rec["n_constraints"] = len(be.constraints) - g.n0[2]
         rec["counts"] = list(g.counts())
         rec["model_violates_assumption"] = list(sym.cur().assumed_false)
